@@ -303,7 +303,9 @@ def all_specs():
 
 INVALID = [-1, 256, 257, 1000, -255, 10**9, [0, 0], [0, 0, 0, 0], [6, 0, 0], [0, 6, 0], [0, 0, 6],
            [-1, 0, 0], [0, 0, -1], [], "g24", "g25", "g-1", "gx", "g", "g1.5", "red", "Red", "ORANGE",
-           "", "-", "GRAY", "G1", "1", 1.5, 0.0, 255.5, "BLACK "]
+           "", "-", "GRAY", "G1", "1", 1.5, 0.0, 255.5, "BLACK ",
+           # texts that are the str() form of a valid value
+           "None", "196", "7", "(4, 1, 1)", "[1, 2, 3]", "255", "0", "True"]
 
 
 def axis_enum():
@@ -334,7 +336,9 @@ def axis_enum():
         yield {"invalid": {"spec": sp, "where": "bg", "other": "RED"}}
         yield {"invalid": {"spec": sp, "where": "fg", "other": 200, "eff": {"underline": True}}}
     for valid, inval in [(3, 3.0), (200, 200.0), (0, 0.0), (255, 255.0), ([1, 2, 3], [1.0, 2, 3]), ([5, 5, 5], [5, 5.0, 5]),
-                         ([0, 0, 0], [0.0, 0.0, 0.0]), (7, 7.0)]:
+                         ([0, 0, 0], [0.0, 0.0, 0.0]), (7, 7.0),
+                         # ... and the text form of a valid value right after that value was used
+                         (196, "196"), (7, "7"), ([4, 1, 1], "(4, 1, 1)"), (None, "None"), (0, "0"), ("RED", "red")]:
         for w in ("fg", "bg"):
             yield {"invalid": {"spec": inval, "where": w, "prime": valid}}
 
